@@ -3,35 +3,24 @@
 import json, os, subprocess, sys
 HERE = os.path.dirname(os.path.dirname(os.path.abspath(__file__)))
 
-CHECKS = {
-    # id: (level, technique, level text, level note, design_ref)
-    "C12": ("model_checking",
-            "TLA+ spec Terminator.tla model-checked by TLC (invariants, liveness, refinement to AbstractTermination); "
-            "TLC behaviours replayed step-by-step into the real Terminator via gates + sync shim; recorded runs "
-            "validated against TerminatorTrace.tla",
-            "Exhaustive TLC exploration of the termination protocol (every interleaving of the critical sections and the two "
-            "lock-free loads for 2-4 workers, adversarial work pool) proves NoEarlyTermination/termination/refinement for the design; "
-            "conformance in both directions binds the design to terminator.rs: TLC-generated behaviours are stepped through the "
-            "real code with the counters compared after every step, and free-running executions are validated as behaviours of the spec.",
-            "Trusted: TLC, the transcription of the worker loop's pool operations (harness pool instead of crossbeam deques), "
-            "sequential consistency for the Relaxed counters, bounded configuration (N<=4, budget<=4) for exhaustiveness.",
-            "4/C12"),
-    "C04": ("model_checking",
-            "TLA+ spec Safepoint.tla model-checked by TLC (exclusion, code asserts, deadlock freedom, liveness, refinement to "
-            "AbstractStw); TLC behaviours replayed step-by-step into the real safepoint.rs/threads.rs via gates + sync shim; event "
-            "logs of real multi-threaded Dora executables validated against SafepointTrace.tla",
-            "Exhaustive TLC exploration of the stop-the-world protocol (every interleaving of each atomic on the thread-state byte and "
-            "each barrier/list critical section for up to 3 threads x 3 operations, 4 x 1) proves exclusion, completion and resumption "
-            "for the design; both conformance directions bind it to the code: model behaviours are stepped through the real functions "
-            "with all thread states, the barrier and the runtime state compared after every step, and logs of real executables (both "
-            "code generators, gc-stress) are accepted as behaviours of the spec with every observed value bound.",
-            "Trusted: TLC; SC memory (all protocol atomics are SeqCst); the operation inside the closure abstracted to begin/end; "
-            "harness threads stand in for managed threads in the replay direction; exhaustiveness only for the bounded configurations.",
-            "4/C04"),
-}
+sys.path.insert(0, os.path.join(HERE, "lib"))
+sys.path.insert(0, HERE)
 
-NOT_YET = {
-}
+
+def load_checks():
+    import importlib, glob
+    out = {}
+    for f in sorted(glob.glob(os.path.join(HERE, "checks", "c[0-9][0-9].py"))):
+        name = os.path.basename(f)[:-3]
+        mod = importlib.import_module("checks." + name)
+        if not hasattr(mod, "MANIFEST"):
+            continue
+        m = mod.MANIFEST
+        out[name.upper()] = (mod.LEVEL, m["technique"], m["text"], m["note"], m["ref"])
+    return out
+
+
+CHECKS = load_checks()
 
 
 def main():
